@@ -52,6 +52,7 @@ def main():
     ap.add_argument("--race-demo", action="store_true")
     ap.add_argument("--needs", default="")
     a = ap.parse_args()
+    a.dir = os.path.abspath(a.dir)
     checks = (a.checks or a.prop).split(",")
     wt = "/tmp/eval-" + a.name
     sh(["git", "-C", "/repo", "worktree", "remove", "--force", wt])
